@@ -101,6 +101,9 @@ class QPlugin:
 
     def shutdown(self):
         for j in list(self.running_jobs.values()):
+            if j.done:
+                # finished, killed or timed out while we held it: nothing to redo
+                continue
             logger.debug("reschedule %s" % j)
             self.workq.pushjob(j)
 
